@@ -11,6 +11,7 @@ from symx.core import SymReal, R, rv, frac, Ctx, prove, satisfiable, evalf, mode
 from harness import common as cm
 
 from pySDC.core.step import Step
+from pySDC.core.problem import Problem
 from pySDC.core.base_transfer import BaseTransfer
 from pySDC.implementations.sweeper_classes.generic_implicit import generic_implicit
 from pySDC.implementations.sweeper_classes.explicit import explicit
@@ -39,7 +40,7 @@ def describe(rep):
     rep.assume('right-hand side F(u, t) uninterpreted and NON-AUTONOMOUS; implicit solve stub: returns a fresh w with w - a F(w, t) = rhs, and returns the initial guess if that already solves the equation (solver contract, C12)',
                'space transfer: identity (injection) or an exact matrix pair; restriction rows of the node transfer sum to one',
                'reals for floats; (c) tolerance 1e-9 for the rounding of the float transfer tables')
-    rep.out_of_scope('the real mesh transfer classes (they are C11)', 'mass-matrix transfer', 'more than 3 levels', 'rounding')
+    rep.out_of_scope('the real mesh transfer classes (they are C11)', 'mass-matrix transfer beyond the defect clause of its restriction', 'more than 3 levels', 'rounding')
 
 
 def tasks(tier, seed):
@@ -63,6 +64,7 @@ def tasks(tier, seed):
         T.append(('fixedpoint3', 4, 3, 3, 'explicit', 1))
         T.append(('fixedpoint', 3, 2, 'implicit', False, 2))
     for Mf, Mc in ([(3, 2), (2, 2)] if quick else [(3, 2), (2, 2), (4, 2), (3, 1), (5, 3)]):
+        T.append(('massdefect', Mf, Mc))
         for qd in ('LU', 'IE'):
             T.append(('twogrid', Mf, Mc, qd, 1))
         if not quick:
@@ -88,6 +90,8 @@ def run_task(rep, task):
         defect_case(rep, task[1], task[2], task[3])
     elif task[0] == 'twogrid':
         twogrid_case(rep, task[1], task[2], task[3], task[4])
+    elif task[0] == 'massdefect':
+        mass_defect_case(rep, task[1], task[2])
     elif task[0] == 'multigrid':
         multigrid_case(rep, tuple(task[1]), task[2], tuple(task[3]), bool(task[4]) if len(task) > 4 else False, bool(task[5]) if len(task) > 5 else False)
 
@@ -343,6 +347,38 @@ class FloatInjectT(SpaceTransfer):
         return type(G)(G)
 
 
+class FloatInjectP(FloatInjectT):
+    def project(self, F_):
+        return type(F_)(F_)
+
+
+class FMass(Problem):
+    """float twin of the mass-matrix IMEX problem (scalar)"""
+
+    from pySDC.implementations.datatype_classes.mesh import mesh as dtype_u, imex_mesh as dtype_f
+
+    def __init__(self, AI, AE, mass):
+        super().__init__(init=(1, None, np.dtype('float64')))
+        self.AI, self.AE, self.mass = float(np.asarray(AI).ravel()[0]), float(np.asarray(AE).ravel()[0]), float(np.asarray(mass).ravel()[0])
+        self.fix_bc_for_residual = False
+
+    def eval_f(self, u, t):
+        f = self.dtype_f(self.init)
+        f.impl[:] = self.AI * np.asarray(u)
+        f.expl[:] = self.AE * np.asarray(u)
+        return f
+
+    def apply_mass_matrix(self, u):
+        me = self.dtype_u(self.init)
+        me[:] = self.mass * np.asarray(u)
+        return me
+
+    def solve_system(self, rhs, factor, u0, t):
+        me = self.dtype_u(self.init)
+        me[:] = np.asarray(rhs) / (self.mass - factor * self.AI)
+        return me
+
+
 def fixedpoint_triage(rep, Ms, sw, finter, nsweeps, name):
     rep.replayed += 1
     try:
@@ -423,6 +459,107 @@ def float_defect(Mf, Mc, sw, seed=3):
     Lc.sweep.compute_residual()
     rc = np.array([float(x[0]) for x in Lc.residual])
     return float(np.abs(rc - st.base_transfer.Rcoll @ rf).max())
+
+
+class InjectProject(sp.Inject):
+    """identity in space, with the projection the mass-matrix transfer asks for"""
+
+    def project(self, F_):
+        return type(F_)(F_)
+
+
+def _mass_step(Mf, Mc, symbolic, vals=None):
+    """two levels with the mass-matrix sweeper / transfer; different (concrete) operators and mass on the two levels; data symbolic or floats"""
+    from pySDC.implementations.sweeper_classes.imex_1st_order_mass import imex_1st_order_mass
+    from pySDC.implementations.transfer_classes.BaseTransfer_mass import base_transfer_mass
+    from harness import sweepspec as ss
+
+    prob = sp.MassImexProb if symbolic else FMass
+    d = dict(problem_class=prob, problem_params={'AI': [np.array([[-1.7]]), np.array([[-1.1]])], 'AE': [np.array([[0.4]]), np.array([[0.3]])], 'mass': [[1.5], [1.25]]},
+             sweeper_class=imex_1st_order_mass, sweeper_params={'num_nodes': [Mf, Mc], 'quad_type': 'RADAU-RIGHT', 'QI': 'LU', 'QE': 'EE'},
+             level_params={'dt': 0.5}, step_params={'maxiter': 1}, space_transfer_class=InjectProject if symbolic else FloatInjectP,
+             base_transfer_class=base_transfer_mass)
+    st = Step(d)
+    Lf, Lc = st.levels
+    for L in st.levels:
+        L.status.time = 0.0
+    P = Lf.prob
+    V = {}
+    for m in range(Mf + 1):
+        nm = f'u{m}'
+        if symbolic:
+            V[nm] = z3.Real(nm)
+            Lf.u[m] = sp.mkmesh(P, [SymReal(V[nm])])
+        else:
+            Lf.u[m] = P.dtype_u(P.init, val=float(vals[nm]))
+        Lf.f[m] = P.eval_f(Lf.u[m], 0.0)
+    Lf.status.unlocked = True
+    return st, V
+
+
+def _mass_defects(st, conv):
+    """fine defect before, coarse defect after the real restriction (computed from the level data with the real integrate / apply_mass_matrix)"""
+    Lf, Lc = st.levels
+    Mf, Mc = Lf.sweep.coll.num_nodes, Lc.sweep.coll.num_nodes
+    intf = Lf.sweep.integrate()
+    rf = [conv((intf[m] + Lf.prob.apply_mass_matrix(Lf.u[0] - Lf.u[m + 1]))[0]) for m in range(Mf)]
+    st.transfer(Lf, Lc)
+    intc = Lc.sweep.integrate()
+    rc = [conv((intc[m] + Lc.u[0] - Lc.prob.apply_mass_matrix(Lc.u[m + 1]) + Lc.tau[m])[0]) for m in range(Mc)]
+    return rf, rc, np.array(st.base_transfer.Rcoll, dtype=float)
+
+
+def mass_defect_case(rep, Mf, Mc):
+    """mass-matrix transfer (base_transfer_mass with the mass-matrix IMEX sweeper): right after the real restriction the coarse defect
+    dt Q_c F_c + R(M_f u0) - M_c U_c + tau equals the restricted fine defect, for arbitrary fine values (different operators and mass on the two levels)"""
+    from pySDC.implementations.transfer_classes.BaseTransfer_mass import base_transfer_mass
+
+    rep.func(base_transfer_mass.restrict)
+    name = f'massdefect/M{Mf}-{Mc}'
+    c = Ctx()
+    Ctx.cur = c
+    try:
+        st, V = _mass_step(Mf, Mc, True)
+        rf, rc, Rm = _mass_defects(st, R)
+    finally:
+        Ctx.cur = None
+    rep.paths += 1
+    tol = rv(1e-11)
+    goal = z3.And([z3.And(rc[n] - sum(rv(Rm[n, m]) * rf[m] for m in range(Mf)) <= tol, sum(rv(Rm[n, m]) * rf[m] for m in range(Mf)) - rc[n] <= tol) for n in range(Mc)])
+    res, model = prove(goal, [z3.And(v >= -1, v <= 1) for v in V.values()], timeout_ms=120000, name=f'{name}:coarse-defect-is-restricted-fine-defect')
+    rep.ob(f'{name}:coarse-defect-is-restricted-fine-defect', res)
+    if res == 'sat':
+        rep.replayed += 1
+        vals = {k: float(model_value(model, v)) for k, v in V.items()}
+        dev = float_mass_defect(Mf, Mc, vals)
+        if dev > 1e-10:
+            rep.violation(f'{PID}/defect-transfer/mass', f'{name}: coarse defect differs from R * fine defect by {dev:.3e} on the real float classes (mass-matrix transfer)',
+                          {'task': ['massdefect', Mf, Mc], 'vals': vals, 'deviation': dev})
+        else:
+            rep.unreproduced(name, {'float_deviation': dev})
+    # sensitivity: without the mass matrix on the coarse values the identity must fail
+    c2 = Ctx()
+    Ctx.cur = c2
+    try:
+        st2, V2 = _mass_step(Mf, Mc, True)
+        Lf2, Lc2 = st2.levels
+        intf = Lf2.sweep.integrate()
+        rf2 = [R((intf[m] + Lf2.prob.apply_mass_matrix(Lf2.u[0] - Lf2.u[m + 1]))[0]) for m in range(Mf)]
+        st2.transfer(Lf2, Lc2)
+        intc = Lc2.sweep.integrate()
+        rc2 = [R((intc[m] + Lc2.u[0] - Lc2.u[m + 1] + Lc2.tau[m])[0]) for m in range(Mc)]
+    finally:
+        Ctx.cur = None
+    bad = z3.And([z3.And(rc2[n] - sum(rv(Rm[n, m]) * rf2[m] for m in range(Mf)) <= tol, sum(rv(Rm[n, m]) * rf2[m] for m in range(Mf)) - rc2[n] <= tol) for n in range(Mc)])
+    res2, _ = prove(bad, [z3.And(v >= -1, v <= 1) for v in V2.values()], timeout_ms=60000, name=f'{name}:mutated', kind='vacuity')
+    rep.vac(f'{name}:defect-without-coarse-mass-refuted', res2, 'sat')
+    rep.sample({'case': name, 'free_variables': 'start value and all fine node values in [-1,1]', 'levels': 'AI -1.7 / -1.1, AE 0.4 / 0.3, mass 1.5 / 1.25'}, limit=3)
+
+
+def float_mass_defect(Mf, Mc, vals):
+    st, _ = _mass_step(Mf, Mc, False, vals)
+    rf, rc, Rm = _mass_defects(st, float)
+    return float(np.abs(np.array(rc) - Rm @ np.array(rf)).max())
 
 
 # ------------------------------------------------------------------------------------------------ (c) linear two-grid cycle through the controller
@@ -707,6 +844,11 @@ def replay(path):
         dev, _ = float_cycle(tuple(t[1]), t[2], t[3], t[4])
     elif t[0] == 'defect':
         dev = float_defect(t[1], t[2], t[3])
+    elif t[0] == 'massdefect':
+        dev = float_mass_defect(t[1], t[2], d['vals'])
+        print('deviation', dev)
+        print('REPRODUCED' if dev > 1e-10 else 'not reproduced')
+        return 1 if dev > 1e-10 else 0
     elif t[0] == 'multigrid':
         dev = float_multigrid(tuple(t[1]), t[2], tuple(t[3]), -1.25, 0.25, d['env'], bool(t[4]) if len(t) > 4 else False, bool(t[5]) if len(t) > 5 else False)
         print('deviation', dev)
